@@ -569,30 +569,28 @@ class Rooms(Combinator[RoomsType]):
         n_read, [([vertical], [horizontal])] = res
         room_id = [[-1 for _ in range(width)] for _ in range(height)]
 
-        def dfs(y: int, x: int, id: int) -> None:
-            nonlocal room_id
-            nonlocal vertical
-            nonlocal horizontal
-            nonlocal height
-            nonlocal width
-
-            if room_id[y][x] != -1:
-                return
-            room_id[y][x] = id
-            if y > 0 and not horizontal[y - 1][x]:
-                dfs(y - 1, x, id)
-            if y < height - 1 and not horizontal[y][x]:
-                dfs(y + 1, x, id)
-            if x > 0 and not vertical[y][x - 1]:
-                dfs(y, x - 1, id)
-            if x < width - 1 and not vertical[y][x]:
-                dfs(y, x + 1, id)
+        def fill(y0: int, x0: int, id: int) -> None:
+            # explicit stack: a single room of a 40x40 board already exceeds the recursion limit
+            stack = [(y0, x0)]
+            while stack:
+                y, x = stack.pop()
+                if room_id[y][x] != -1:
+                    continue
+                room_id[y][x] = id
+                if y > 0 and not horizontal[y - 1][x]:
+                    stack.append((y - 1, x))
+                if y < height - 1 and not horizontal[y][x]:
+                    stack.append((y + 1, x))
+                if x > 0 and not vertical[y][x - 1]:
+                    stack.append((y, x - 1))
+                if x < width - 1 and not vertical[y][x]:
+                    stack.append((y, x + 1))
 
         last_id = 0
         for y in range(height):
             for x in range(width):
                 if room_id[y][x] == -1:
-                    dfs(y, x, last_id)
+                    fill(y, x, last_id)
                     last_id += 1
 
         if not self._allow_redundant_border:
